@@ -119,9 +119,11 @@ func check(cfg *program.Config, device, policies, policy string) {
 		for _, ext := range []string{"", ".raw"} {
 			p1 := path.Join(policies, devicePolicy, dir, device+ext)
 			p2 := path.Join(policies, policy, dir, device+ext)
-			d1 := readFile(p1)
-			d2, _ := os.ReadFile(p2)
-			if !slices.Equal(d1, d2) {
+			d1, found1 := readFile(p1)
+			d2, err := os.ReadFile(p2)
+			found2 := err == nil
+			// A missing file must not be taken as equal to an empty file.
+			if found1 != found2 || !slices.Equal(d1, d2) {
 				fmt.Println(device)
 				return
 			}
@@ -129,16 +131,16 @@ func check(cfg *program.Config, device, policies, policy string) {
 	}
 }
 
-func readFile(p string) []byte {
+func readFile(p string) ([]byte, bool) {
 	if d, err := os.ReadFile(p); err == nil {
-		return d
+		return d, true
 	}
 	if fh, err := os.Open(p + ".bz2"); err == nil {
 		if d, err := io.ReadAll(bzip2.NewReader(fh)); err == nil {
-			return d
+			return d, true
 		}
 	}
-	return nil
+	return nil, false
 }
 
 func abort(format string, args ...any) int {
